@@ -40,6 +40,8 @@ ASYMS = {
     "far": (["C", "O", "N"], ["C1", "O1", "N1"], [[6.1651, -7.2513, 0.3127], [12.5533, 0.0791, -9.3873], [-5.6419, 9.7277, 14.0911]], None),
     # labels whose leading letters spell ANOTHER element than the site holds (PDB-style CA / CD1, hydroxyl HO1, NE1)
     "misleading_labels": (["C", "H", "N", "C"], ["CA1", "HO1", "NE1", "CD1"], [[0.1231, 0.3117, 0.2713], [0.5533, 0.0791, 0.6127], [0.8419, 0.7277, 0.0911], [0.3301, 0.9013, 0.4409]], None),
+    # the smallest asymmetric unit: one atom (in P1 the whole cell then holds one atom - a one-row coordinate block in every format)
+    "one_atom": (["Xe"], ["Xe1"], [[0.1231, 0.3117, 0.2713]], None),
     "precise": (["C", "N"], ["C1", "N1"], [[0.123456789012, 0.987654321098, 0.555555555555], [1 / 3, 2 / 7, 0.1 + 1e-12]], None),
 }
 
@@ -65,7 +67,7 @@ def variants(row, tier):
     out = [d]
     axes = [
         [("oblique",), ("nonterm",), ("pseudo",), ("eq_ab",), ("eq_bc",), ("eq_ac",)],
-        [("two_letter",), ("twelve",), ("half_occ",), ("occ_values",), ("precise",), ("far",), ("misleading_labels",)],
+        [("two_letter",), ("twelve",), ("one_atom",), ("half_occ",), ("occ_values",), ("precise",), ("far",), ("misleading_labels",)],
         [("from_cif",), ("from_res",), ("from_rich_cif",)],
         [("file",)],
         [(2,)],
@@ -638,7 +640,7 @@ def run(ctx):
     table = symm.load_table()
     nvar = len(variants(table[0], ctx.tier))
     ctx.rule = ("530 settings x {CIF, .res, POSCAR} x %d variants within %d deviation(s) of the default (cell: oblique / non-terminating / free parameters a hair off whole numbers and special angles / accidentally equal lengths a=b, b=c, a=c; asymmetric unit: "
-                "two-letter elements+suffix labels / 12 atoms / half occupancies / occupancies 1, 0, 1/4, 3/4, 1/3 / 12-digit coordinates; provenance: from CIF / from a refinement-style CIF with extra same-prefix loops of other lengths / from .res; route: "
+                "two-letter elements+suffix labels / 12 atoms / one atom / half occupancies / occupancies 1, 0, 1/4, 3/4, 1/3 / 12-digit coordinates; provenance: from CIF / from a refinement-style CIF with extra same-prefix loops of other lengths / from .res; route: "
                 "files incl. POSCAR, CONTCAR; two generations); states = settings, transitions = save->load steps, traces = texts read by the "
                 "independent reference readers" % (nvar, 2 if ctx.thorough else 1))
     ctx.bounds = {"settings": len(table), "variants_per_setting": nvar, "formats": list(FORMATS)}
